@@ -1,3 +1,4 @@
+use std::borrow::Cow;
 use std::cmp::max;
 use std::fmt;
 use std::fmt::{Display, Formatter};
@@ -61,7 +62,8 @@ pub fn format_err(
 ) -> fmt::Result {
     let path = path
         .as_ref()
-        .map_or("<unknown>", |p| p.to_str().unwrap_or_default());
+        .map_or(Cow::from("<unknown>"), |p| p.to_string_lossy());
+    let path = path.as_ref();
 
     if let Some(pos) = pos {
         writeln!(
